@@ -72,24 +72,34 @@ def endRun (s : Scan) : Option Scan :=
   | none => some s
   | some pi => if pi ∈ s.closed ∧ pi ∉ s.disc then none else some { s with cur := none, closed := pi :: s.closed }
 
-/-- `none` = contiguity violated -/
-def scan : List Reading → Scan → Option Scan
-  | [], s => endRun s
-  | .clause pi _ :: rs, s =>
-    if s.cur = some pi then scan rs s
+/-- one item; `none` = contiguity violated.  A clause of the predicate of the run in progress
+    continues the run; anything else ends it (a discontiguous declaration counts from the next
+    run on). -/
+def scanStep (r : Reading) (s : Scan) : Option Scan :=
+  match r with
+  | .clause pi _ =>
+    if s.cur = some pi then some s
     else match endRun s with
       | none => none
-      | some s' => scan rs { s' with cur := some pi }
-  | .declare .discontiguous ps :: rs, s =>
+      | some s' => some { s' with cur := some pi }
+  | .declare .discontiguous ps =>
     match endRun s with
     | none => none
-    | some s' => scan rs { s' with disc := s'.disc ++ ps }
-  | _ :: rs, s =>
-    match endRun s with
-    | none => none
-    | some s' => scan rs s'
+    | some s' => some { s' with disc := s'.disc ++ ps }
+  | _ => endRun s
 
-def contiguous (rs : List Reading) : Bool := (scan rs ⟨none, [], []⟩).isSome
+def scanItems : List Reading → Scan → Option Scan
+  | [], s => some s
+  | r :: rs, s =>
+    match scanStep r s with
+    | none => none
+    | some s' => scanItems rs s'
+
+/-- no predicate has a later run that is not preceded by a discontiguous declaration -/
+def contiguous (rs : List Reading) : Bool :=
+  match scanItems rs ⟨none, [], []⟩ with
+  | none => false
+  | some s => (endRun s).isSome
 
 /-! ### the definition a text gives to a predicate -/
 
